@@ -179,6 +179,7 @@ CHECKS = {
            {"pkg": ODB, "funcs": ["VerifC03Instance"],
             "covers": {"VerifC03Instance": ["created", "via-sync", "via-direct-channel", "via-topic", "delivered", "local-write-refused", "opener-passes-own-list", "opener-reuses-parameters"]}}],
         "assumptions": [
+            "write lists with an EMPTY entry, a truncated id or an id with a suffix (concrete cases, replayable natively): they name nobody",
             "a refused local write is repeated: the second attempt returns an error too (nothing, not even a lock, is left behind) and the replication status is untouched",
             "the non-writer opens the restricted database passing access-controller parameters of its own (an explicit list naming itself, or a value it used before to create its own database): the opened store reports and enforces the list recorded at creation",
             "Dolev-Yao attacker with perfect symbolic cryptography: verify(pub, m, s) <=> s = sign(pub, m); the attacker can sign only with its own key, copy any public field (ids, identity blocks, keys, signatures of honest entries) and re-address entries",
@@ -197,12 +198,13 @@ CHECKS = {
         }, {
             "pkg": BS, "funcs": ["VerifC04ForeignChain"],
             "params": {"quick": {"F": 3, "H": 3}, "thorough": {"F": 5, "H": 4}},
-            "covers": {"VerifC04ForeignChain": ["via-refs", "via-next", "restarted", "relayed", "trimmed-load", "trimmed-load-after-restart"]},
+            "covers": {"VerifC04ForeignChain": ["via-refs", "via-next", "restarted", "relayed", "trimmed-load", "trimmed-load-after-restart", "foreign-entries-by-the-local-identity"]},
         }, {
             "pkg": BS, "funcs": ["VerifC04Snapshot"],
             "covers": {"VerifC04Snapshot": ["snapshot-rewritten", "impersonates-an-ancestor", "impersonates-the-head", "loaded"]},
         }],
         "assumptions": [
+            "the foreign chain is written by the remote writer or by the LOCAL replica's own identity (one instance uses one identity for all its databases)",
             "the tampered (re-addressed) entry is also delivered as an ancestor reached through REFS only, behind a next entry the replica already holds",
             "snapshot route (VerifC04Snapshot): the snapshot file of a two-entry log is rewritten (it is referenced from the local cache only): the frame of the ancestor or of the head is replaced by another validly signed entry of the same writer and database that CLAIMS the replaced entry's address; a fresh instance loads it; every merged entry must hash to the address it is listed under",
             "a valid entry of an authorised writer, one field of its wire form replaced (payload by a symbolic byte, clock time by ANY other 64-bit value, clock id, next, refs, key, signature, log id, only the claimed address, or the claimed address replaced by an alias with the same multihash digest and another codec), keeping the claimed address or re-addressed; delivered as an announced head or (re-addressed) as the ancestor of a valid head",
@@ -323,8 +325,13 @@ CHECKS = {
         }, {
             "pkg": ODB, "funcs": ["VerifC05Identity"],
             "covers": {"VerifC05Identity": ["created", "restarted-same-identity", "other-directory", "in-memory", "still-open", "restarted-through-another-spelling"]},
+        }, {
+            "pkg": BS, "funcs": ["VerifC05WriteDuringMerge"],
+            "max_paths": {"quick": 60000, "thorough": 400000},
+            "covers": {"VerifC05WriteDuringMerge": ["written-during-merge", "recovered"]},
         }],
         "assumptions": [
+            "write during a merge (VerifC05WriteDuringMerge): a local write starts at ANY visible step of the replication of a remote batch of 1..2 entries and runs until it blocks; the disk image at its acknowledgement (crash) and after a clean close both reload to a log holding it (and, after the clean close, the replicated batch)",
             "identity across a restart that designates the SAME directory by another string (a symbolic link natively, an alias in the disk model): same identity, the peer can still write",
             "history of STEPS steps on one store, each a local write (symbolic payload) or a real replication of a batch written by a remote writer (Sync -> replicator -> fetcher -> Join -> cache write -> EventReplicated)",
             "the store's block store and cache append every mutation to ONE ordered effect log; each effect is durable once its call returns (as the property assumes)",
@@ -415,8 +422,12 @@ CHECKS = {
             "max_paths": {"quick": 60000, "thorough": 600000},
             "timeout": {"quick": "10m", "thorough": "60m"},
             "covers": {"VerifC01Docs": ["converged", "partial-load", "put-batch", "put-all"]},
+        }, {
+            "pkg": EL, "funcs": ["VerifC01Grouping"],
+            "covers": {"VerifC01Grouping": ["grouped-and-separate"]},
         }],
         "assumptions": [
+            "grouping of manual syncs (VerifC01Grouping): one identity writes from two devices that have not seen each other (two concurrent heads signed with the same key; distinct (time, key) pairs), another writer's chain is known to the second device; the heads (optionally with the other writer's, in either order) are given to a fresh replica in ONE Sync call and to another one call per head: same ordered entries, everything reachable listed",
             "two writers (real stores built by InitBaseStore over a shared block store) produce a history of STEPS steps, each a local write with symbolic key/value or a real head exchange (Sync -> replicator -> ipfs-log fetcher -> Join) in either direction, in any order; then both exchange heads and a fresh replica receives everything by one of five routes: manual sync in one batch, load from the writer's disk (cache heads + blocks, real Load), a snapshot saved by the writer (real SaveSnapshot / LoadFromSnapshot), the two writers' branches in separate batches followed by a restart from its own disk, or a PARTIAL load from disk (Load with a limit k, k any value below the log length) completed by the heads a lagging peer would announce, handed over by Sync or by LoadMoreFrom (entries below the loaded window, so the log's heads do not move)",
             "the real ipfs-log Append/Join/traverse/sorting run in the interpreter; IPFS is a content-addressed block store stub with perfect hashing; identities use perfect symbolic signatures",
             "overlapping delivery (VerifC01Overlap): a restarted event-log replica whose cache holds T entries loads from disk WHILE the very head it has cached (or a newer one on top of it) is replicated into it by Sync, every schedule with at most P preemptions; it lists every entry exactly once, in the writer's order",
@@ -465,8 +476,14 @@ CHECKS = {
             "params": {"quick": {"P": 1}, "thorough": {"P": 1}},
             "max_paths": {"quick": 60000, "thorough": 600000},
             "covers": {"VerifC17DocsConcurrent": ["concurrent-calls"]},
+        }, {
+            "pkg": BS, "funcs": ["VerifC17Callbacks"],
+            "params": {"quick": {"W": 2, "P": 1}, "thorough": {"W": 3, "P": 1}},
+            "max_paths": {"quick": 60000, "thorough": 400000},
+            "covers": {"VerifC17Callbacks": ["callbacks-delivered"]},
         }],
         "assumptions": [
+            "progress channels (VerifC17Callbacks): W concurrent writers each pass an unbuffered progress channel to AddOperation, one collector drains them in a fixed order, every schedule with at most P preemptions: every call returns, each channel gets its own call's entry, one distinct entry per call in log and view",
             "public API of the document store (VerifC17DocsConcurrent): a PutAll of two documents concurrent with another PutAll sharing one key, a Put or a Delete, every schedule with at most P preemptions: each call appended one distinct entry carrying exactly ITS documents, all are in the log, the documents equal the replay of the log",
             "W writer goroutines on one real BaseStore (InitBaseStore over stubs) calling the real AddOperation with the real ipfs-log Append; payloads symbolic",
             "schedule: run-to-block with FIFO hand-over; at every visible operation (mutex/rwmutex lock+unlock, channel send/receive/select/close, go, waitgroup wait, cache write, block write) the path may preempt the running thread, at most P times per path (CHESS-style preemption bounding); every such schedule is explored",
@@ -574,9 +591,10 @@ CHECKS = {
         }, {
             "pkg": KV, "funcs": ["VerifC06EdgeKeys"],
             "params": {"quick": {"N": 2}, "thorough": {"N": 3}},
-            "covers": {"VerifC06EdgeKeys": ["edge-keys"]},
+            "covers": {"VerifC06EdgeKeys": ["edge-keys", "caller-reused-its-buffer"]},
         }],
         "assumptions": [
+            "value ownership: the caller reuses the buffer it passed to Put; after later index updates Get still shows what was written",
             "edge keys and values through the public API (VerifC06EdgeKeys): N operations, each a Put (value non-empty / empty / nil) or a Delete of a key from {\"\", \"a\", \"a/b\", \"/\"}; after each, Get of every such key, Get of a key never written and All equal the replay of the held operations",
             "listing of N operations in log order with symbolic 1-byte keys (any collision pattern), op kind PUT/DEL, value nil / empty / 1 symbolic byte",
             "earlier index state = replay of an arbitrary sub-listing (models earlier merges of any subset)",
